@@ -22,12 +22,17 @@ class Outcome:
     """Result of one obligation (one solver-decided statement)."""
 
     def __init__(self, oid, engine, status, reason="", queries=0, solver_s=0.0, nontrivial=False,
-                 sample=None, detail=None, clause=None, site=None, replayed=None, replay_path=None):
+                 sample=None, detail=None, clause=None, site=None, replayed=None, replay_path=None, cases=None):
         self.oid, self.engine, self.status, self.reason = oid, engine, status, reason
         self.queries, self.solver_s, self.nontrivial = queries, solver_s, nontrivial
         self.sample, self.detail = sample, detail or {}
         self.clause, self.site = clause, site
         self.replayed, self.replay_path = replayed, replay_path
+        # distinct non-trivial cases behind this obligation: satisfied reachability witnesses (Kani) or
+        # distinct feasible paths (MIR executor)
+        if cases is None:
+            cases = (sample or {}).get("paths") if isinstance(sample, dict) else None
+        self.cases = cases if cases is not None else (1 if nontrivial else 0)
 
 
 def tree_fingerprint():
@@ -103,6 +108,7 @@ def run_kani_group(prop, obls, tier, seed, jobs):
                 pass
             out = Outcome(o["id"], "kani", r.status, r.reason, queries=r.checks,
                           solver_s=r.time_s, nontrivial=(r.status == "holds" and r.covers_total > 0),
+                          cases=r.covers_sat,
                           sample={"obligation": o["id"], "statement": o["what"], "bounds": o["bounds"],
                                   "checks": r.checks, "reachability_witnesses":
                                       f"{r.covers_sat}/{r.covers_total}", "cbmc_s": r.time_s},
@@ -151,12 +157,14 @@ def write_evidence(prop, tier, seed, outs, wall, meta, level="model_checking"):
         "level": level,
         "coverage": {
             "evaluations": sum(max(1, o.queries) for o in outs),
-            "distinct_nontrivial": sum(1 for o in held if o.nontrivial),
+            "distinct_nontrivial": sum(int(o.cases or 0) for o in held if o.nontrivial),
             "rule": ("one case = one solver-decided obligation (a Kani/CBMC harness over symbolic inputs, "
                      "or one path/assertion query of the MIR symbolic executor); evaluations = solver "
-                     "checks discharged (CBMC properties + SMT queries); an obligation is non-trivial "
-                     "iff its reachability witness (kani::cover / sat path condition) was confirmed "
-                     "in this run, so a vacuous harness is not counted"),
+                     "checks discharged (CBMC properties + SMT queries); distinct_nontrivial = number of "
+                     "distinct non-vacuous cases behind the obligations that held: kani::cover reachability "
+                     "witnesses found SATISFIED by CBMC, plus distinct feasible paths (satisfiable path "
+                     "conditions) enumerated by the MIR executor; a harness whose witnesses are not all "
+                     "satisfied is reported inconclusive and contributes nothing"),
             "samples": samples,
             "obligations": len(outs),
             "discharged": len(held),
